@@ -58,6 +58,7 @@ func (w *World) moduleGlobals() []*types.Var {
 func runC14(w *World, r *Report) {
 	r.Rule("atomic", "the id counter is touched only by atomic.AddUint32(&messageXid, …) whose result becomes the Xid", 2)
 	r.Rule("globals", "package-level state is written only by package initialisation", 5)
+	r.Rule("escape", "no function returns a pointer or slice into package-level storage", 1)
 	r.Rule("registry-ro", "pointers loaded from package-level tables are not written through, retained or returned", 1)
 	r.Rule("noscratch", "no pooled or function-level scratch state shared between calls", 1)
 
@@ -135,6 +136,7 @@ func runC14(w *World, r *Report) {
 		}
 	}
 
+	escapeRule(w, r, nil)
 	// ---------------- globals (SSA)
 	sw := w.SSA()
 	globals := w.moduleGlobals()
@@ -211,6 +213,12 @@ func runC14(w *World, r *Report) {
 						viol[name] = append(viol[name], gviol{e.Pos, "write through a pointer loaded from the variable: " + e.What, ssaFuncKey(w, e.Fn)})
 						break
 					}
+				}
+				if e.Kind == "unmodelled" {
+					// a method of an out-of-module type called on an object a package-level variable holds: unless the
+					// type is documented as safe for concurrent use (those are modelled), concurrent callers race on it
+					name := seedOf[seeds[0]]
+					viol[name] = append(viol[name], gviol{e.Pos, "call on the shared object it holds, not known to be safe for concurrent use: " + e.What, ssaFuncKey(w, e.Fn)})
 				}
 				if e.Kind == "retain" || e.Kind == "send" {
 					name := seedOf[seeds[0]]
@@ -316,4 +324,85 @@ func isTestFunc(w *World, fn *ssa.Function) bool {
 		return strings.HasSuffix(w.Fset.Position(fn.Pos()).Filename, "_test.go")
 	}
 	return false
+}
+
+// escapeRule: no function hands its caller a pointer or slice into package-level storage. Library code
+// may never write such storage itself (globals rule) and still share it: a result that aliases a package
+// array, or a table entry, lets independent callers (and goroutines) modify the same bytes.
+func escapeRule(w *World, r *Report, only *ssa.Function) int {
+	sw := w.SSA()
+	var fns []*ssa.Function
+	for fn := range sw.All {
+		if w.inModule(fn) && len(fn.Blocks) > 0 && (only == nil || fn == only) {
+			fns = append(fns, fn)
+		}
+	}
+	sort.Slice(fns, func(i, j int) bool { return fns[i].String() < fns[j].String() })
+	refType := func(t types.Type) bool {
+		switch u := t.Underlying().(type) {
+		case *types.Slice, *types.Map:
+			return true
+		case *types.Pointer:
+			// pointers to error sentinels and to functions are not mutable shared bytes
+			switch u.Elem().Underlying().(type) {
+			case *types.Struct, *types.Array, *types.Basic:
+				return true
+			}
+		}
+		return false
+	}
+	nChecked := 0
+	for _, fn := range fns {
+		if fn.Name() == "init" || strings.HasPrefix(fn.Name(), "init#") {
+			continue
+		}
+		var seeds []ssa.Value
+		names := map[string]bool{}
+		for _, b := range fn.Blocks {
+			for _, ins := range b.Instrs {
+				var g *ssa.Global
+				var v ssa.Value
+				switch x := ins.(type) {
+				case *ssa.Slice:
+					g, _ = x.X.(*ssa.Global)
+					v = x
+				case *ssa.IndexAddr:
+					g, _ = x.X.(*ssa.Global)
+					v = x
+				case *ssa.FieldAddr:
+					g, _ = x.X.(*ssa.Global)
+					v = x
+				case *ssa.UnOp:
+					if x.Op == token.MUL {
+						if gg, ok := x.X.(*ssa.Global); ok && refType(x.Type()) {
+							g, v = gg, x
+						}
+					}
+				}
+				if g == nil || g.Pkg == nil || g.Pkg.Pkg == nil || !strings.HasPrefix(g.Pkg.Pkg.Path(), w.ModPath) {
+					continue
+				}
+				seeds = append(seeds, v)
+				names[g.Pkg.Pkg.Name()+"."+g.Name()] = true
+			}
+		}
+		if len(seeds) == 0 {
+			continue
+		}
+		nChecked++
+		var ns []string
+		for n := range names {
+			ns = append(ns, n)
+		}
+		sort.Strings(ns)
+		a := NewAlias(w)
+		sum := a.AnalyzeSeeds(fn, seeds)
+		key := ssaFuncKey(w, fn)
+		if sum.returns {
+			r.Fail(VViolation, "escape", key, strings.Join(ns, ","), w.Pos(fn.Pos()), "the result may be, or contain, a pointer or slice into the package-level storage "+strings.Join(ns, ", ")+": every caller (and goroutine) that modifies what it was given modifies the same shared bytes")
+		} else {
+			r.OK("escape", key, strings.Join(ns, ","), w.Pos(fn.Pos()), "uses "+strings.Join(ns, ", ")+"; nothing derived from it is returned", true)
+		}
+	}
+	return nChecked
 }
